@@ -195,6 +195,15 @@ def eval_cases(cases: List[Tuple[Dict[str, Any], str, Any, List[str]]], rep: Rep
             rep.case(ntkey if nt else None, lab, sample)
 
 
+def _maybe_low_power(st: S.Stream, case: Dict[str, Any], labels: List[str]) -> None:
+    """One case in sixteen starts in the low-power state ("every architectural state"): the instruction is
+    executed by both cores' single-instruction entry points with the halted flag already set."""
+    if st.chance(1, 16):
+        case["power"] = "halted"
+        case["stop_on_halt"] = False
+        labels.append("power0:halted")
+
+
 def _shard(task: Tuple[int, int, int, str]) -> Report:
     shard, nshards, seed, tier = task
     rep = Report()
@@ -207,6 +216,7 @@ def _shard(task: Tuple[int, int, int, str]) -> Report:
             mn, shape = describe(code)
             st = S.Stream(seed, shard, j)
             case, labels = S.gen_state(st, code, mn, imax=12)
+            _maybe_low_power(st, case, labels)
             op = code[1] if pre is not None else code[0]
             where = where_of(pre, op, mn)
             b2 = code[2] if pre is not None and len(code) > 2 else (code[1] if pre is None and len(code) > 1 else 0)
@@ -231,6 +241,7 @@ def _shard(task: Tuple[int, int, int, str]) -> Report:
                     mn, shape = describe(code)
                     st = S.Stream(seed, idx)
                     case, labels = S.gen_state(st, code, mn, imax=12)
+                    _maybe_low_power(st, case, labels)
                     where = where_of(pre, op, mn)
                     cases.append((case, where, f"{pre}:{op:02X}:{b2:02X}:{labels[-1]}", labels + [f"pre:{'yes' if pre else 'no'}"]))
                     if len(cases) >= 2048:
